@@ -1,19 +1,20 @@
 package main
 
-// Replay of a refuted postcondition on the real code.
+// Replay of a refuted obligation on the real code.
 //
-// When the solver refutes an `ensures` obligation (status sat) of a function whose parameters and results are all
-// scalars (integers, booleans, named types over them), whose receiver - if any - is not used by the body, and whose
-// clause is plain Go (no ghost state, old(), quantifiers), the model's parameter values are turned into a Go test:
+// When the solver refutes (status sat) a postcondition (`ensures`) or a run-time-check obligation (`safety`) of a
+// function whose parameters are scalars (integers, booleans, named types over them) or byte slices and whose
+// receiver - if any - is not used by the body, the model's parameter values are turned into a Go test:
 //
-//	results := f(values...)          // the real function, compiled from /repo's working tree
-//	if !clause(values..., results...) { t.Fatalf("VERIF-REPLAY-VIOLATED ...") }
+//	results := f(values...)                       // the real function, compiled from /repo's working tree
+//	if !clause(values..., results...) { fail }    // postconditions: the clause must be plain Go (no ghost state)
+//	a panic in f fails the test                   // safety obligations
 //
 // compiled into the function's package through `go test -overlay` (nothing is written into the repository; the
 // package's own _test.go files are replaced by empty ones so that test-only imports that do not build offline cannot
 // get in the way). A test that fails with the marker is a failing input demonstrated on the real code: the VIOLATION
 // line then carries no `no-failing-input-found` suffix and the replay file contains the test and its output.
-// Anything else (not replayable, build failure, the concrete run satisfies the clause) leaves the suffix in place.
+// Anything else (not replayable, build failure, the concrete run does not fail) leaves the suffix in place.
 
 import (
 	"context"
@@ -24,6 +25,7 @@ import (
 	"os/exec"
 	"path/filepath"
 	"regexp"
+	"strconv"
 	"strings"
 	"time"
 
@@ -41,34 +43,92 @@ func isScalarType(t types.Type) bool {
 	return b.Info()&(types.IsInteger|types.IsBoolean) != 0
 }
 
-// modelValue extracts the value of an SMT constant from a (get-model) answer.
-func modelValue(model, name string) (string, bool) {
-	q := regexp.QuoteMeta(name)
-	re := regexp.MustCompile(`\(define-fun\s+\|?` + q + `\|?\s+\(\)\s+(Int|Bool)\s+([^()\s]+|\(-\s*\d+\))\s*\)`)
-	m := re.FindStringSubmatch(model)
-	if m == nil {
-		return "", false
+func isByteSlice(t types.Type) bool {
+	s, ok := t.Underlying().(*types.Slice)
+	if !ok {
+		return false
 	}
-	v := strings.TrimSpace(m[2])
-	if strings.HasPrefix(v, "(") {
-		v = "-" + strings.TrimSpace(strings.Trim(strings.TrimPrefix(strings.TrimSpace(v[1:len(v)-1]), "-"), " "))
+	b, ok := s.Elem().Underlying().(*types.Basic)
+	return ok && b.Kind() == types.Uint8
+}
+
+// evalInModel re-runs the solver that refuted the obligation and asks for the values of the given terms.
+func evalInModel(ob *Obligation, terms []Term) ([]string, bool) {
+	if len(terms) == 0 {
+		return nil, true
 	}
-	return v, true
+	dir, err := os.MkdirTemp(os.Getenv("TMPDIR"), "gowp-eval-")
+	if err != nil {
+		return nil, false
+	}
+	defer os.RemoveAll(dir)
+	file := filepath.Join(dir, "eval.smt2")
+	text := ob.Script.render(ob.Goal, false, ob.NAsserts) + "(get-value (" + strings.Join(terms, " ") + "))\n"
+	if os.WriteFile(file, []byte(text), 0o644) != nil {
+		return nil, false
+	}
+	for _, s := range solvers {
+		if s.name != ob.Solver {
+			continue
+		}
+		r := runSolver(context.Background(), s, file, 30)
+		if r.status != "sat" {
+			return nil, false
+		}
+		rest := r.out[strings.Index(r.out, "sat")+3:]
+		tree := parseSx(strings.TrimSpace(rest))
+		if tree == nil || len(tree.kids) != len(terms) {
+			return nil, false
+		}
+		var vals []string
+		for _, pair := range tree.kids {
+			if len(pair.kids) != 2 {
+				return nil, false
+			}
+			v := pair.kids[1]
+			switch {
+			case v.kids == nil:
+				vals = append(vals, v.atom)
+			case len(v.kids) == 2 && v.kids[0].atom == "-" && v.kids[1].kids == nil:
+				vals = append(vals, "-"+v.kids[1].atom)
+			default:
+				return nil, false
+			}
+		}
+		return vals, true
+	}
+	return nil, false
 }
 
 func tryReplay(eng *Engine, verif, prop string, ob *Obligation, b *strings.Builder) bool {
 	say := func(f string, a ...any) { fmt.Fprintf(b, "\n--- replay: "+f+"\n", a...) }
 	con, cl := ob.Con, ob.Cl
-	if ob.Kind != "ensures" || con == nil || cl == nil || con.IsClosure || cl.GoText == "" || cl.ParamText == "" {
-		say("not attempted (not a postcondition of a declared function)")
+	if con == nil || con.IsClosure || (ob.Kind != "ensures" && ob.Kind != "safety") {
+		say("not attempted (only postconditions and run-time-check obligations of declared functions are replayed)")
 		return false
 	}
-	if cl.TypeParams != "" {
+	if ob.Kind == "ensures" {
+		if cl == nil || cl.GoText == "" || cl.ParamText == "" {
+			say("not attempted (clause text unavailable)")
+			return false
+		}
+		if specOnlyRe.MatchString(cl.GoText) {
+			say("not attempted (the clause refers to ghost state, old() or quantifiers: not executable Go)")
+			return false
+		}
+	}
+	anyClause := cl
+	if anyClause == nil {
+		for _, l := range [][]*Clause{con.Ensures, con.Requires, con.Givens} {
+			for _, c := range l {
+				if anyClause == nil && c.ParamText != "" {
+					anyClause = c
+				}
+			}
+		}
+	}
+	if anyClause != nil && anyClause.TypeParams != "" {
 		say("not attempted (generic function)")
-		return false
-	}
-	if specOnlyRe.MatchString(cl.GoText) {
-		say("not attempted (the clause refers to ghost state, old() or quantifiers: not executable Go)")
 		return false
 	}
 	fn := eng.findFunction(con)
@@ -78,9 +138,8 @@ func tryReplay(eng *Engine, verif, prop string, ob *Obligation, b *strings.Build
 	}
 	sig := fn.Signature
 	hasRecv := sig.Recv() != nil
-	params := fn.Params
 	if hasRecv {
-		if refs := params[0].Referrers(); refs != nil {
+		if refs := fn.Params[0].Referrers(); refs != nil {
 			for _, r := range *refs {
 				if _, dbg := r.(*ssa.DebugRef); !dbg {
 					say("not attempted (the receiver is used by the function: its state is not reconstructed from the model)")
@@ -88,36 +147,23 @@ func tryReplay(eng *Engine, verif, prop string, ob *Obligation, b *strings.Build
 				}
 			}
 		}
-		params = params[1:]
 	}
-	for _, p := range params {
-		if !isScalarType(p.Type()) {
-			say("not attempted (parameter %s has non-scalar type %s)", p.Name(), p.Type())
-			return false
+	// declared type of each parameter as written in the source: from the source AST via the synthetic parameter list
+	typeText := map[string]string{}
+	if anyClause != nil {
+		for _, part := range splitTop(anyClause.ParamText, ',') {
+			fs := strings.Fields(strings.TrimSpace(part))
+			if len(fs) >= 2 {
+				typeText[fs[0]] = strings.Join(fs[1:], " ")
+			}
 		}
 	}
-	for i := 0; i < sig.Results().Len(); i++ {
-		if !isScalarType(sig.Results().At(i).Type()) {
-			say("not attempted (result %d has non-scalar type)", i)
-			return false
-		}
-	}
-	// values from the model
 	names := con.SynParams
 	np := len(fn.Params)
-	var argExprs []string
-	var decls []string
-	// declared type of each synthetic parameter, as written in the source (package qualifiers as imported there)
-	typeText := map[string]string{}
-	for _, part := range splitTop(cl.ParamText, ',') {
-		fs := strings.Fields(strings.TrimSpace(part))
-		if len(fs) >= 2 {
-			typeText[fs[0]] = strings.Join(fs[1:], " ")
-		}
-	}
+	var argExprs, decls []string
 	for i, p := range fn.Params {
-		if i >= len(names) {
-			say("not attempted (parameter names)")
+		if i >= len(names) || typeText[names[i]] == "" {
+			say("not attempted (parameter names / types unavailable)")
 			return false
 		}
 		n := names[i]
@@ -125,19 +171,49 @@ func tryReplay(eng *Engine, verif, prop string, ob *Obligation, b *strings.Build
 			decls = append(decls, fmt.Sprintf("\tvar %s %s", n, typeText[n]))
 			continue
 		}
-		term, ok := ob.ParamTerms[n]
-		if !ok {
-			say("not attempted (no SMT term for parameter %s)", n)
+		leaves := ob.ParamTerms[n]
+		switch {
+		case isScalarType(p.Type()) && len(leaves) == 1:
+			vals, ok := evalInModel(ob, leaves)
+			if !ok {
+				say("not attempted (no model value for parameter %s)", n)
+				return false
+			}
+			decls = append(decls, fmt.Sprintf("\t%s := %s(%s)", n, typeText[n], vals[0]))
+		case isByteSlice(p.Type()) && len(leaves) == 4 && ob.ByteHeap != "":
+			hdr, ok := evalInModel(ob, []Term{leaves[0], leaves[2]})
+			if !ok {
+				say("not attempted (no model value for slice %s)", n)
+				return false
+			}
+			ln, _ := strconv.Atoi(hdr[1])
+			if hdr[0] == "0" {
+				decls = append(decls, fmt.Sprintf("\tvar %s %s // nil", n, typeText[n]))
+				break
+			}
+			if ln < 0 || ln > 1<<16 {
+				say("not attempted (slice %s has length %s in the model)", n, hdr[1])
+				return false
+			}
+			var elems []Term
+			for k := 0; k < ln; k++ {
+				elems = append(elems, app("select", app("select", ob.ByteHeap, leaves[0]), sidx(leaves[1], num(int64(k)))))
+			}
+			ev, ok := evalInModel(ob, elems)
+			if !ok {
+				say("not attempted (no model values for the contents of %s)", n)
+				return false
+			}
+			for k := range ev {
+				if v, err := strconv.Atoi(ev[k]); err != nil || v < 0 || v > 255 {
+					ev[k] = "0" // cells the model leaves outside the byte range are not read by the refuting path
+				}
+			}
+			decls = append(decls, fmt.Sprintf("\t%s := %s{%s}", n, typeText[n], strings.Join(ev, ", ")))
+		default:
+			say("not attempted (parameter %s of type %s is neither a scalar nor a byte slice)", n, p.Type())
 			return false
 		}
-		val, ok := modelValue(ob.Model, strings.Trim(term, "|"))
-		if !ok {
-			val = "0" // unconstrained in the model
-			if bt, isB := p.Type().Underlying().(*types.Basic); isB && bt.Info()&types.IsBoolean != 0 {
-				val = "false"
-			}
-		}
-		decls = append(decls, fmt.Sprintf("\t%s := %s(%s)", n, typeText[n], val))
 		argExprs = append(argExprs, n)
 	}
 	var resNames []string
@@ -150,26 +226,40 @@ func tryReplay(eng *Engine, verif, prop string, ob *Obligation, b *strings.Build
 	}
 	var src strings.Builder
 	pkgName := fn.Pkg.Pkg.Name()
-	// imports: those of the source file that declares the function (unused ones are pruned below)
 	srcFile := filepath.Join(eng.repo, strings.TrimPrefix(fn.Pkg.Pkg.Path(), "github.com/bloxapp/ssv/"), con.SrcFile)
-	fmt.Fprintf(&src, "package %s\n\n%s\nimport \"testing\"\nimport \"reflect\"\n\n", pkgName, fileImportsText(srcFile, eng.cfiles, fn.Pkg.Pkg.Path()))
+	fmt.Fprintf(&src, "package %s\n\n%s\nimport \"testing\"\nimport \"reflect\"\n\n", pkgName, fileImportsText(srcFile, eng.cfiles))
 	fmt.Fprintf(&src, "func verif_implies(a, b bool) bool { return !a || b }\nfunc verif_iff(a, b bool) bool { return a == b }\n")
 	fmt.Fprintf(&src, "func verif_raw(a any) int {\n\tv := reflect.ValueOf(a)\n\tswitch {\n\tcase v.CanInt():\n\t\treturn int(v.Int())\n\tcase v.CanUint():\n\t\treturn int(v.Uint())\n\tcase v.Kind() == reflect.Bool:\n\t\tif v.Bool() {\n\t\t\treturn 1\n\t\t}\n\t}\n\treturn 0\n}\n\n")
-	fmt.Fprintf(&src, "func verif_replay_clause(%s) bool { return %s }\n\n", cl.ParamText, cl.GoText)
+	marker := "VERIF-REPLAY-VIOLATED " + strings.ReplaceAll(ob.Name, `"`, `'`)
+	if ob.Kind == "ensures" {
+		fmt.Fprintf(&src, "func verif_replay_clause(%s) bool { return %s }\n\n", cl.ParamText, cl.GoText)
+	}
 	fmt.Fprintf(&src, "func TestVerifReplay(t *testing.T) {\n%s\n", strings.Join(decls, "\n"))
+	if ob.Kind == "safety" {
+		fmt.Fprintf(&src, "\tdefer func() {\n\t\tif r := recover(); r != nil {\n\t\t\tt.Fatalf(\"%s: the function panicked on the model's input: %%v\", r)\n\t\t}\n\t}()\n", marker)
+		for i := range resNames {
+			resNames[i] = "_"
+		}
+	}
 	if len(resNames) > 0 {
-		fmt.Fprintf(&src, "\t%s := %s\n", strings.Join(resNames, ", "), call)
+		op := ":="
+		if ob.Kind == "safety" {
+			op = "="
+		}
+		fmt.Fprintf(&src, "\t%s %s %s\n", strings.Join(resNames, ", "), op, call)
 	} else {
 		fmt.Fprintf(&src, "\t%s\n", call)
 	}
-	fmt.Fprintf(&src, "\tif !verif_replay_clause(%s) {\n\t\tt.Fatalf(\"VERIF-REPLAY-VIOLATED %s: inputs %%v results %%v\", []any{%s}, []any{%s})\n\t}\n}\n",
-		strings.Join(names, ", "), strings.ReplaceAll(ob.Name, `"`, `'`), strings.Join(argExprs, ", "), strings.Join(resNames, ", "))
-	formatted, err := imports.Process("zz_verif_replay_test.go", []byte(src.String()), &imports.Options{Comments: true, FormatOnly: false})
+	if ob.Kind == "ensures" {
+		fmt.Fprintf(&src, "\tif !verif_replay_clause(%s) {\n\t\tt.Fatalf(\"%s: inputs %%v results %%v\", []any{%s}, []any{%s})\n\t}\n",
+			strings.Join(names, ", "), marker, strings.Join(argExprs, ", "), strings.Join(resNames, ", "))
+	}
+	src.WriteString("}\n")
+	formatted, err := imports.Process("zz_verif_replay_test.go", []byte(src.String()), &imports.Options{Comments: true})
 	if err != nil {
 		say("not attempted (generated test does not parse: %v)\n%s", err, src.String())
 		return false
 	}
-	// overlay: the replay test plus blanked existing tests
 	tmp, err := os.MkdirTemp(os.Getenv("TMPDIR"), "gowp-replay-")
 	if err != nil {
 		say("not attempted (%v)", err)
@@ -184,11 +274,12 @@ func tryReplay(eng *Engine, verif, prop string, ob *Obligation, b *strings.Build
 	blankX := filepath.Join(tmp, "blankx_test.go")
 	os.WriteFile(blankX, []byte("package "+pkgName+"_test\n"), 0o644)
 	ov := map[string]string{filepath.Join(pkgDir, "zz_verif_replay_test.go"): testFile}
+	xtest := regexp.MustCompile(`(?m)^package\s+\w+_test\b`)
 	if ents, err := os.ReadDir(pkgDir); err == nil {
 		for _, e := range ents {
 			if strings.HasSuffix(e.Name(), "_test.go") {
 				data, _ := os.ReadFile(filepath.Join(pkgDir, e.Name()))
-				if regexp.MustCompile(`(?m)^package\s+\w+_test\b`).Match(data) {
+				if xtest.Match(data) {
 					ov[filepath.Join(pkgDir, e.Name())] = blankX
 				} else {
 					ov[filepath.Join(pkgDir, e.Name())] = blank
@@ -196,10 +287,25 @@ func tryReplay(eng *Engine, verif, prop string, ob *Obligation, b *strings.Build
 			}
 		}
 	}
+	// quic-go v0.33 (pulled in by libp2p) refuses to compile with the installed Go and its qtls fork panics at init;
+	// the QUIC transport is never exercised by a replay, so both files are replaced for the test build only
+	modCache := filepath.Join(os.Getenv("HOME"), "go", "pkg", "mod")
+	if gp := os.Getenv("GOMODCACHE"); gp != "" {
+		modCache = gp
+	}
+	for target, repl := range map[string]string{
+		"github.com/quic-go/quic-go@v0.33.0/internal/qtls/go121.go": "qtls_go121.go",
+		"github.com/quic-go/qtls-go1-20@v0.2.3/unsafe.go":           "qtls20_unsafe.go",
+	} {
+		rp := filepath.Join(verif, "engine", "replay_ov", repl)
+		if _, err := os.Stat(rp); err == nil {
+			ov[filepath.Join(modCache, target)] = rp
+		}
+	}
 	ovData, _ := json.Marshal(map[string]any{"Replace": ov})
 	ovFile := filepath.Join(tmp, "overlay.json")
 	os.WriteFile(ovFile, ovData, 0o644)
-	ctx, cancel := context.WithTimeout(context.Background(), 180*time.Second)
+	ctx, cancel := context.WithTimeout(context.Background(), 300*time.Second)
 	defer cancel()
 	rel, _ := filepath.Rel(eng.repo, pkgDir)
 	cmd := exec.CommandContext(ctx, "go", "test", "-overlay", ovFile, "-vet=off", "-count=1", "-timeout", "60s", "-run", "^TestVerifReplay$", "./"+rel+"/")
@@ -208,16 +314,16 @@ func tryReplay(eng *Engine, verif, prop string, ob *Obligation, b *strings.Build
 	out, _ := cmd.CombinedOutput()
 	fmt.Fprintf(b, "\n--- replay test (compiled into %s through go test -overlay)\n%s\n--- replay output\n%s\n", rel, formatted, out)
 	if strings.Contains(string(out), "VERIF-REPLAY-VIOLATED") {
-		say("CONFIRMED on the real code: the function, run on the model's inputs, violates the clause")
+		say("CONFIRMED on the real code: the function, run on the model's inputs, fails")
 		return true
 	}
-	say("not confirmed (the concrete run did not violate the clause, or the test did not build)")
+	say("not confirmed (the concrete run did not fail, or the test did not build)")
 	return false
 }
 
 // fileImportsText: the import declarations of a Go source file, as text (the replay test reuses them; unused ones are
 // removed by imports.Process), plus the contract files' extra imports for that package.
-func fileImportsText(path string, cfiles []*ContractFile, pkgPath string) string {
+func fileImportsText(path string, cfiles []*ContractFile) string {
 	data, err := os.ReadFile(path)
 	if err != nil {
 		return ""
